@@ -74,7 +74,7 @@ inline std::string crs_wellformed(const amgcl::backend::crs<V, C, P> &M, bool ne
 }
 
 inline uint64_t vec_digest(const double *p, size_t n, uint64_t h = 0x51ed27) { return sim::hash_bytes(p, n * sizeof(double), h); }
-template <class Vec> inline uint64_t vec_digest(const Vec &v, uint64_t h = 0x51ed27) { return sim::hash_bytes(&v[0], v.size() * sizeof(v[0]), h); }
+template <class Vec> inline uint64_t vec_digest(const Vec &v, uint64_t h = 0x51ed27) { return v.size() ? sim::hash_bytes(v.data(), v.size() * sizeof(v[0]), h) : h; }
 
 inline bool bits_equal(double a, double b) { return std::memcmp(&a, &b, sizeof a) == 0; }
 inline bool bits_equal(const std::vector<double> &a, const std::vector<double> &b) {
